@@ -37,7 +37,7 @@ PROBES = [
     "vector_checked", "pair_both_directions", "create_frames_reentered", "dynamic_lookup_created_frames", "unknown_frame_refused", "mutated_then_queried_again",
     "registration_interleaved", "config_flip_after_first_use", "restart", "kernel_fault_fired", "without_pck", "date_last_minute_of_day", "analytic_history_independent",
     "analytic_within_series_accuracy", "builtin_frame_to_body", "analytic_other_body_on_neighbouring_days", "reversed_propagator_checked", "non_cartesian_state_changed_body", "frame_attached_to_a_jpl_orbit", "kernel_frame_served_after_analytic_namesake", "pickled_body_state_converted",
-    "kernel_variant_type3", "kernel_variant_reordered", "kernel_variant_split", "kernel_variant_split_reordered", "propagated_after_in_place_change",
+    "kernel_variant_type3", "kernel_variant_reordered", "kernel_variant_split", "kernel_variant_split_reordered", "kernel_variant_upper", "constant_files_upper_case_extension", "centre_offset_asked_directly", "propagated_after_in_place_change",
 ]
 REAL_VS_STUB = "real: beyond.env.jpl (Bsp/Pck singletons, JplPropagator, create_frames, get_orbit, get_frame), frames/centres routing, Date, jplephem reading the real DE403 2000-2020 kernel and the real PCK text files (faulted copies in a scratch directory); stub: none; model: own jplephem handle on the intact kernel chained segment by segment, own TDB (sim/models/timescales.py)"
 ASSUMPTIONS = [
@@ -54,7 +54,7 @@ PCKS = ["pck00010.tpc", "gm_de431.tpc"]
 _model = {}
 _variants = {}
 
-KERNEL_VARIANTS = ("stock", "type3", "reordered", "split", "split_reordered")
+KERNEL_VARIANTS = ("stock", "type3", "reordered", "split", "split_reordered", "upper")
 
 
 def _variant_dir():
@@ -130,6 +130,16 @@ def kernel_files(variant):
     if variant in _variants and all(os.path.exists(f) for f in _variants[variant]):
         return _variants[variant]
     d = _variant_dir()
+    if variant == "upper":
+        # the stock file under a name whose extension is in upper case (a link: nothing is copied)
+        path = os.path.join(d, "DE403_2000-2020.BSP")
+        if not os.path.exists(path):
+            try:
+                os.symlink(os.path.join(JPL_DIR, BSP), path)
+            except FileExistsError:
+                pass
+        _variants[variant] = [path]
+        return _variants[variant]
     n = 15
     spec = {
         "type3": [("type3.bsp", list(range(n)), True)],
@@ -246,7 +256,8 @@ def gen_plan(rng, tier, i):
         "fault": None,
         "explicit_create": rng.random() < 0.8,
     }
-    kn["kernel"] = child.choice(["stock"] * 5 + ["type3", "type3", "reordered", "reordered", "split", "split_reordered"])
+    kn["kernel"] = child.choice(["stock"] * 5 + ["type3", "type3", "reordered", "reordered", "split", "split_reordered", "upper"])
+    kn["pck_upper"] = child.random() < 0.15  # constant files given under an upper-case extension
     if rng.random() < 0.15:
         kn["fault"] = {"kind": rng.choice(["bsp_missing", "bsp_empty", "bsp_truncated", "pck_missing", "pck_damaged"]), "at": rng.random()}
     ops = []
@@ -256,6 +267,8 @@ def gen_plan(rng, tier, i):
         if k == "convert":
             a, b = rng.sample(names + ["EME2000"], 2)
             op.update(a=a, b=b, date=gen_date(rng), probe=[rng.uniform(-1e7, 1e7) for _ in range(3)] + [rng.uniform(-1e3, 1e3) for _ in range(3)] if rng.random() < 0.5 else [0.0] * 6, both=rng.random() < 0.5)
+            if child.random() < 0.25:
+                op["direct"] = child.choice(["object", "name", "name"])
         elif k in ("get_orbit", "mutate_again"):
             op.update(name=rng.choice(names[1:]), date=gen_date(rng), how=rng.choice(["frame", "form", "values"]))
             if k == "mutate_again" and child.random() < 0.6:
@@ -304,7 +317,20 @@ class World:
         # the same 15 segments stored another way (type 3 records, children before parents, two files): a configuration like any other;
         # file faults are applied to the stock file
         self.variant = "stock" if self.fault else (kn.get("kernel") or "stock")
-        self.files = kernel_files(self.variant) + [os.path.join(JPL_DIR, p) for p in kn["pck"]]
+        pcks = [os.path.join(JPL_DIR, p) for p in kn["pck"]]
+        if kn.get("pck_upper") and pcks and not self.fault:
+            up = []
+            for p_ in pcks:
+                link = os.path.join(_variant_dir(), os.path.basename(p_).upper())
+                if not os.path.exists(link):
+                    try:
+                        os.symlink(p_, link)
+                    except FileExistsError:
+                        pass
+                up.append(link)
+            pcks = up
+            ctx.probe("constant_files_upper_case_extension")
+        self.files = kernel_files(self.variant) + pcks
         if self.variant != "stock":
             ctx.probe("kernel_variant_" + self.variant)
         self.faulted = False
@@ -513,6 +539,17 @@ class World:
         if "EME2000" in (a, b):
             ctx.probe("builtin_frame_to_body")
         self.check_vector(got, a, b, op["date"], where, extra=probe)
+        if op.get("direct") and not getattr(self, "name_clash", False):
+            # the documented lower-level call: Center.convert_to(date, <Center or name>, orientation) -> offset of the origin
+            def direct():
+                fa, fb = n.frames.get_frame(a), n.frames.get_frame(b)
+                tgt = fb.center if op["direct"] == "object" else fb.center.name
+                return np.array(fa.center.convert_to(date, tgt, fb.orientation), dtype=float)
+
+            off, exc = self.guarded(direct, where, f"Center.convert_to({b!r} given as {op['direct']})")
+            if exc is None:
+                ctx.probe("centre_offset_asked_directly")
+                self.check_vector(off, a, b, op["date"], where + f" (Center.convert_to, target given as {op['direct']})")
         if op.get("both"):
             got2, exc = self.guarded(lambda: conv(b, a, probe), where, f"conversion {b} -> {a}")
             if exc is None:
@@ -691,7 +728,7 @@ class World:
             return  # after a name clash (see op_analytic_frame_same_name) frames are looked up by name: nothing is asserted
         ctx = self.ctx
         n = self.node
-        if not any(f.endswith("gm_de431.tpc") for f in self.files) or self.faulted:
+        if not any(f.lower().endswith("gm_de431.tpc") for f in self.files) or self.faulted:
             return
         if self.guarded(self.ensure_frames, where, "create_frames")[1] is not None:
             return
@@ -701,6 +738,9 @@ class World:
             fa = n.frames.get_frame(a)
             mu = fa.center.body.mu
         except Exception:  # noqa
+            return
+        if a in ("Earth", "Moon", "Sun") and not (mu and np.isfinite(mu) and mu > 0):
+            ctx.violate("jpl-frames", {"kind": "constants_not_loaded", "body": a}, f"{where}: the constant file gm_de431.tpc is configured ({[os.path.basename(f) for f in self.files]}) but the centre {a} has mu = {mu!r}")
             return
         if not mu or not np.isfinite(mu) or mu <= 0:
             return
